@@ -8,6 +8,9 @@ CHECKS = {
  "C06": ("exploration", "bounded-exhaustive enumeration on the real evaluator vs. big-integer reference evaluator",
          "Every operator on every operand pair of a 49-value grid (all types, 64-bit boundaries, sets of every element type, ill-formed sets), all (a∘b)∘c arithmetic compositions over 14 boundary integers, and every operator sequence up to length 3/4 over a 28-symbol alphabet are evaluated by the library and compared with an independent math/big evaluator; panics are violations. The space is finite and enumerated completely, so the verdict is a coverage statement over that grid, not a sample.",
          "Trusted: Go regexp/strings/math/big; the harness's transcription of the operator table. Values outside the grid are not covered.", "DESIGN.md §4-C06", "ssx"),
+ "C05": ("exploration", "bounded-exhaustive enumeration of programs and fact orders on the real engine vs. reference least-fixpoint evaluator",
+         "Every rule with 1-2 body atoms over the 25-atom DL-small alphabet (3-atom bodies over 8 atoms), several head shapes, with/without an equality expression, is queried against every ordered list of up to 3-4 distinct ground facts in 15 constant domains (all term types, type-confusable pairs, set presentations); every single rule and ordered rule pair of a recursive alphabet is run to fixpoint on every subset of a 9-fact universe in two insertion orders. Results are compared as sets with an independent recursive-substitution evaluator. The space is finite and fully enumerated.",
+         "Trusted: internal/refdl (naive least fixpoint), internal/refexpr. Programs with 4+ body atoms, 3+ rules or arity>2 are outside the scope.", "DESIGN.md §4-C05", "ssx"),
 }
 PENDING = "check not built yet in this revision (work in progress; see DESIGN.md §4 for the planned bounded-exhaustive check)"
 def main():
